@@ -7,8 +7,8 @@ from . import base
 ID = 'C05'
 LEVEL = 'exploration'
 PLAN = {
-    'quick': [('synth_group', 3600)],
-    'thorough': [('synth_group', 120000)],
+    'quick': [('synth_group', 3600), ('shipped_group', 160)],
+    'thorough': [('synth_group', 120000), ('shipped_group', 6000)],
 }
 DEADLINE = {'quick': 200, 'thorough': 3300}
 PROBES = ['group-with-distinct-traces', 'split-variant', 'layout-variant', 'form-order-variant', 'cli-variant',
@@ -167,6 +167,9 @@ _shr = base.make_minimiser(_min_eval)
 
 
 def minimise(v):
+    if str(v.get('engine', '')).startswith('shipped'):
+        from . import shipped_props
+        return shipped_props.minimise(ID, v)
     # first reduce the group to the fewest variants that still disagree
     case = v['case']
     oracle = v['oracle']
